@@ -377,6 +377,9 @@ class Model():
         for field_name in field_names:
             for asset in getattr(association, field_name):
                 asset_assocs = list(asset.associations)
+                if any(assoc is association for assoc in asset_assocs):
+                    # Reflexive association, the asset is in both fields
+                    continue
                 asset_assocs.append(association)
                 asset.associations = asset_assocs
 
@@ -635,14 +638,17 @@ class Model():
             left_field_name, right_field_name = \
                 self.get_association_field_names(association)
 
-            if asset in getattr(association, left_field_name):
-                opposite_field_name = right_field_name
-            else:
-                opposite_field_name = left_field_name
-
-            if opposite_field_name == field_name:
+            # An asset can be part of both fields (reflexive association),
+            # so both directions have to be considered.
+            if right_field_name == field_name and \
+                    asset in getattr(association, left_field_name):
                 associated_assets.extend(
-                    getattr(association, opposite_field_name)
+                    getattr(association, right_field_name)
+                )
+            if left_field_name == field_name and \
+                    asset in getattr(association, right_field_name):
+                associated_assets.extend(
+                    getattr(association, left_field_name)
                 )
 
         return associated_assets
